@@ -293,3 +293,25 @@ def ob_eviction3(m: int, n: int, o0: int, o1: int, o2: int, o3: int) -> bool:
     post: _
     """
     return _eviction_script(3, m, n, [o0, o1, o2, o3][:EV3_N])
+
+
+_RE_OPS = [3, 4, 5, 0, 6]   # terminal h0 / h1 / h2, re-upsert h0 as running, delete h0
+
+
+@obligation(quick=200, thorough=600, partitions_quick=[f"o0 == {a} and m == {m}" for a in range(3) for m in (1, 2)],
+            partitions_thorough=[f"o0 == {a} and o1 == {b} and m == {m}" for a in range(3) for b in range(5) for m in (1, 2)],
+            what="re-completion histories (3 handler ids, max_completed 1..2): scripts of 5 (thorough 6) ops over {complete h0/h1/h2, re-upsert h0 as "
+                 "running, delete h0}: repeated terminal updates move a handler to the back, a handler that was re-opened or deleted and completes "
+                 "again counts as a fresh completion; after every op stored = non-terminal + the m most recently completed",
+            bounds={"max_completed": "1..2", "ops": "5 (quick) / 6 (thorough) from 5 op codes, first op a completion"})
+def ob_eviction_recompletion(m: int, o0: int, o1: int, o2: int, o3: int, o4: int, o5: int) -> bool:
+    """
+    pre: 1 <= m <= 2 and 0 <= o0 <= 2 and 0 <= o1 <= 4 and 0 <= o2 <= 4 and 0 <= o3 <= 4 and 0 <= o4 <= 4 and 0 <= o5 <= 4
+    pre: RE_N >= 6 or o5 == 0
+    post: _
+    """
+    ops = [_RE_OPS[pick_int(o, 0, 4)] for o in (o0, o1, o2, o3, o4, o5)][:RE_N]
+    return _eviction_script(3, m, RE_N, ops)
+
+
+RE_N = B(5, 6)
